@@ -20,7 +20,7 @@ func init() {
 		Rule: "E1 over module sets x all filter combinations with a differential oracle: a generator places config true/false/absent at every position of tree skeletons (containers, lists, leaves, leaf-lists, choices with cases and default cases under containers, lists, nested lists, cases and at the module top, up to 3 levels), plus fixed sets with opd:command/option/argument nodes, lists whose key is the only configuration node, choices whose default case is state-only, groupings/augments/rpcs; each set is compiled without a filter and with each of 21 filters (nil, IsConfig, IsState, IsOpd, IsConfigOrState, Include and Exclude of every subset of the three predicates, IncludeState true/false). " +
 			"The dump of the filtered compile must equal the dump of the unfiltered compile after removing every node that fails the filter together with its subtree (the predicates are re-implemented on the dump's own kind/config fields); a filter must never turn a compilable set into an error. Non-trivial = the filter removes at least one node but not all.",
 		Bound: map[string]string{
-			"quick":    "8 skeletons with 4 config positions x 3 values + 16 fixed sets, x 21 filters",
+			"quick":    "10 skeletons with 4 config positions x 3 values + 16 fixed sets, x 21 filters",
 			"thorough": "skeletons with <= 6 config positions",
 		},
 		Assumptions: []string{"defchildren/hasdefault of a parent legitimately change when a child carrying a default is pruned: these two derived fields are recomputed by the pruning reference"},
@@ -228,6 +228,13 @@ func skeletons() []skel {
 		}, 4},
 		{func(c []string) string {
 			return fmt.Sprintf("container top {%s container mid {%s container low {%s leaf deep { type string;%s } } leaf m { type string; } } leaf t { type string; } }", cfgStmt(c[0]), cfgStmt(c[1]), cfgStmt(c[2]), cfgStmt(c[3]))
+		}, 4},
+		// config on the key leaf itself (a read-only key in a configuration list compiles here), key not first
+		{func(c []string) string {
+			return fmt.Sprintf("list li {%s key k; leaf v { type string;%s } leaf k { type string;%s } container in {%s leaf x { type string; } } leaf-list ll { type string; } }", cfgStmt(c[0]), cfgStmt(c[1]), cfgStmt(c[2]), cfgStmt(c[3]))
+		}, 4},
+		{func(c []string) string {
+			return fmt.Sprintf("container o {%s list li { key \"k1 k2\"; leaf k1 { type string;%s } leaf k2 { type string;%s } leaf v { type string;%s } leaf w { type string; } } }", cfgStmt(c[0]), cfgStmt(c[1]), cfgStmt(c[2]), cfgStmt(c[3]))
 		}, 4},
 		// a choice with a default case directly under a list / at the top of the module /
 		// inside a case of another choice / under a list inside a list
